@@ -958,7 +958,7 @@ class Path:
         # store the branching condition aside until the new path is activated.
         path.pending.append(cond)
 
-        # shallow copy because each entry references earlier entries thus remains unchanged later
+        # shallow copy because entries are replaced, never mutated, when later conditions extend them
         path.related = self.related.copy()
         path.var_to_conds = deepcopy(self.var_to_conds)
         # shared across different paths
@@ -1028,7 +1028,11 @@ class Path:
 
         # update dependency relation
         var_set = self.get_var_set(cond)
-        self.related[idx] = self._get_related(var_set)
+        # the relation is symmetric and transitive: earlier conditions that the new one connects (a == b, then b > 5)
+        # become related to it and to each other. fresh set objects: `related` is copied shallowly by branch()
+        component = self._get_related(var_set) | {idx}
+        for i in component:
+            self.related[i] = component
         for var in var_set:
             self.var_to_conds[var].add(idx)
 
